@@ -114,6 +114,22 @@ impl Prop for C08 {
                 },
             ));
         }
+        {
+            // lines without any fractional or grouped literal: the separators must not matter at all
+            let plain: Vec<Vec<T>> = corpus::lines().into_iter().filter(|(_, ts)| !corpus::has_fraction_or_group(ts)).map(|(_, ts)| ts).collect();
+            let extra = ["R:12/02/1988 O:+ N:32 W:years", "R:3/3/2021 K:to R:1/1/2000", "N:10 C:usd O:- N:25 C:usd", "N:0 O:- N:15", "T:11:30 K:to Z:EST", "N:90 W:minutes K:as W:hours", "N:255 K:to W:hex", "N:1619098200 K:to W:date"];
+            let mut all = plain;
+            for e in extra {
+                all.push(corpus::tpl(e));
+            }
+            let n = all.len();
+            f.push(Family::new(
+                "separator-free-lines",
+                Mode::Full,
+                &format!("{} lines that contain no fractional or grouped literal (dates and date arithmetic, differences of dates, negative money and numbers, times, durations, radix and timestamp conversions, the separator-free corpus lines) under all 4 conventions: same value, and the printed forms agree once mapped back through their convention", n),
+                move |ch| Some(Case::Line(ch.pick(&all).clone())),
+            ));
+        }
         let ds = tier.pick(3, 4);
         f.push(Family::new(
             "switched-conventions",
@@ -233,6 +249,22 @@ impl Prop for C08 {
                         return v;
                     }
                 }
+                // the printed forms agree once each is mapped back through its own convention
+                let canon_out = |r: &Run, conv: &Conv| -> Option<String> {
+                    match r {
+                        Run::Done(o) => match o.slots.last() {
+                            Some(Slot::Ok { out, .. }) => {
+                                let mut t = out.clone();
+                                if !conv.thou.is_empty() {
+                                    t = t.replace(conv.thou.as_str(), "");
+                                }
+                                Some(t.replace(conv.dec.as_str(), "."))
+                            }
+                            _ => None,
+                        },
+                        _ => None,
+                    }
+                };
                 let first = last_val(&results[0].1);
                 match first {
                     None => {
@@ -248,6 +280,17 @@ impl Prop for C08 {
                                     v.violation = Some(format!("value differs between separator conventions: {}", t));
                                     return v;
                                 }
+                            }
+                        }
+                        // printing: same digits, sign, symbols and words under every convention (only for
+                        // values whose printed form has no thousands separator inside words: all kinds)
+                        let o0 = canon_out(&results[0].1, &convs[0]);
+                        for (k, (t, r)) in results.iter().enumerate().skip(1) {
+                            let ok = canon_out(r, &convs[k]);
+                            // a convention with the same character in both roles cannot be mapped back; the four used here are distinct
+                            if o0.is_some() && ok != o0 {
+                                v.violation = Some(format!("printed form differs between separator conventions beyond the separators themselves: {} prints {:?}, the first convention prints {:?}", t, ok, o0));
+                                return v;
                             }
                         }
                     }
